@@ -115,12 +115,14 @@ def judgeE2E : Judge := liftJudge fun input obs => do
     else if contacted && !Spec.isShort reqSrc && !intactAtBackend then "e2e:request:body-not-intact:" ++ sc.body.enc
     else if !contacted then ""
     else if respLim < 0 then
-      -- stream mode: an honest body of any size arrives intact; a lying backend must not look like a clean success
-      -- (the status line may be out already: the transfer must then be visibly aborted — no readable response at all,
-      -- or a framing error —, with or without the Proxy's gzip compressor in between)
-      if Spec.isShort respSrc then (if c.err == "" && c.frameOK && c.status < 400 && !nobody then "e2e:response:short-body-clean-success:stream" ++ (if sc.compression ≥ 0 then "+pcomp" else "") else "")
-      else if c.status != sc.bStatus then s!"e2e:response:status:{c.status}:stream"
-      else if !nobody && !(c.frameOK && c.decSum == o.back.sum) then "e2e:response:stream-not-intact"
+      -- stream mode (`Spec.streamResponseOK`, accepted by the model: `run_meets_streamResponseOK`): a short body is a
+      -- visibly aborted transfer — no readable response at all, or a framing error — with or without the Proxy's gzip
+      -- compressor in between; an honest body of any size arrives complete with the backend's status (and intact)
+      if !Spec.streamResponseOK respSrc sc.bStatus c.status (c.err != "" || !c.frameOK) then
+        (if Spec.isShort respSrc then "e2e:response:short-body-clean-success:stream" ++ (if sc.compression ≥ 0 then "+pcomp" else "")
+         else if c.err == "" && c.status != sc.bStatus then s!"e2e:response:status:{c.status}:stream"
+         else "e2e:response:stream-not-intact")
+      else if !Spec.isShort respSrc && !nobody && c.decSum != o.back.sum then "e2e:response:stream-not-intact"
       else ""
     else if !Spec.responseOK respLim respSrc sc.bStatus c.status delivered
         && !(nobody && c.status == sc.bStatus && !Spec.isShort respSrc && (Spec.size respSrc : Int) ≤ respLim) then
